@@ -131,7 +131,7 @@ type c13Case struct {
 	body               c13Body
 	bi                 int
 	skip               bool
-	auth               bool // security with a callback that reads the whole body
+	auth               int // 0 no security; 1 one requirement, the callback reads the whole body; 2 two alternative requirements: the callback reads the body each time, rejects the first and accepts the second
 	serverWay          bool
 }
 
@@ -165,11 +165,14 @@ func (c c13Case) document() map[string]any {
 	if c.body.schema != nil {
 		op["requestBody"] = m("required", true, "content", m("application/json", m("schema", c.body.schema)))
 	}
-	if c.auth {
+	switch c.auth {
+	case 1:
 		op["security"] = l(m("A", l()))
+	case 2:
+		op["security"] = l(m("A", l()), m("B", l()))
 	}
 	return m("openapi", "3.0.3", "info", m("title", "t", "version", "1"), "paths", m("/r", m("post", op)),
-		"components", m("securitySchemes", m("A", m("type", "http", "scheme", "basic"))))
+		"components", m("securitySchemes", m("A", m("type", "http", "scheme", "basic"), "B", m("type", "apiKey", "name", "k", "in", "header"))))
 }
 
 type c13Snapshot struct {
@@ -212,7 +215,7 @@ func init() {
 	core.Register(&core.Check{
 		ID: "C13",
 		Rule: "operations: every subset of {query integer with default, query integer array with default in 4 styles, header string with default, cookie integer with default} x 8 body schemas with defaults (none, flat, nested objects and array items, allOf, oneOf/anyOf over objects, oneOf/anyOf over arrays) x every request (each defaulted part present/absent/invalid, every listed body) " +
-			"x SkipSettingDefaults x an authentication callback that reads the body x client-style/server-style request; history: validate, next handler reads the body, validate the forwarded request again, read again. States compared: (body bytes, raw query, headers incl. cookies, ContentLength). non-trivial = a default applies or a body is present",
+			"x SkipSettingDefaults x security {none, one requirement whose callback reads the body, two alternative requirements whose callback reads the body each time and rejects the first} x client-style/server-style request; history: validate, next handler reads the body, validate the forwarded request again, read again. States compared: (body bytes, raw query, headers incl. cookies, ContentLength). non-trivial = a default applies or a body is present",
 		Assumptions: []string{
 			"reference apply-defaults mc/checks/c13.go: absent parameters get their schema default in the parameter's own serialisation, absent body properties get their default at any depth, only the matching oneOf/anyOf branch contributes",
 			"query strings are compared as decoded values (re-encoding order is not a change); bodies byte-for-byte unless defaults were added, then as JSON values",
@@ -243,7 +246,7 @@ func init() {
 			c.body = explore.Pick(x, c13Bodies)
 			c.bi = x.Choose(len(c.body.values))
 			c.skip = x.Bool()
-			c.auth = x.Bool()
+			c.auth = x.Choose(3)
 			c.serverWay = x.Bool()
 			if !r.Own(x) {
 				return
@@ -311,11 +314,16 @@ func init() {
 			origQuery, origRaw, origHeader := req.URL.Query(), req.URL.RawQuery, req.Header.Clone()
 			sig := c.sig()
 			opts := &openapi3filter.Options{SkipSettingDefaults: c.skip}
-			authSaw := []byte(nil)
-			if c.auth {
+			var authSaw [][]byte // what each call of the callback could read
+			if c.auth != 0 {
 				opts.AuthenticationFunc = func(_ context.Context, ai *openapi3filter.AuthenticationInput) error {
+					var saw []byte
 					if b := ai.RequestValidationInput.Request.Body; b != nil {
-						authSaw, _ = io.ReadAll(b)
+						saw, _ = io.ReadAll(b)
+					}
+					authSaw = append(authSaw, saw)
+					if c.auth == 2 && ai.SecuritySchemeName == "A" {
+						return fmt.Errorf("not by A")
 					}
 					return nil
 				}
@@ -384,9 +392,17 @@ func init() {
 				return
 			}
 			r.Validated(1)
-			if c.auth && bodyBytes != nil && !bytes.Equal(authSaw, bodyBytes) {
-				fail("authentication-callback-cannot-read-the-body", "callback_read", string(authSaw))
+			if c.auth != 0 && bodyBytes != nil {
+				for i, saw := range authSaw {
+					if !bytes.Equal(saw, bodyBytes) {
+						fail("authentication-callback-cannot-read-the-body", "callback_call", i+1, "callback_read", string(saw))
+					}
+				}
+				if len(authSaw) == 0 {
+					fail("authentication-callback-not-called")
+				}
 			}
+			authSaw = nil
 			s1 := c13Snap(req)
 			r.Outcome(fmt.Sprintf("valid=%v defaults=%v", err1 == nil, defaultsApply))
 			if (err1 == nil) != wantValid {
